@@ -23,7 +23,7 @@ package signing_proposal_fsm
 //@   ensures[C06.count] err == nil ==> sgnCnt(m.payload, internal.SigningPartialSignsConfirmed) == old(sgnCnt(m.payload, internal.SigningPartialSignsConfirmed)) + 1 && sgnCnt(m.payload, internal.SigningError) == old(sgnCnt(m.payload, internal.SigningError)) && len(sgnQ(m.payload)) == old(len(sgnQ(m.payload)))
 //@   ensures[C05.reject,C06.reject,C18.reject] err != nil ==> signingViewsSame(m)
 //@   ensures[C06.shape] outEvent == "" && response == nil
-//@   ensures[C06.once] err == nil ==> isPsReq(args) && (psReq(args).ParticipantId in old(dom(sgnQ(m.payload)))) && old(sgnQ(m.payload)[psReq(args).ParticipantId].Status) == internal.SigningAwaitPartialSigns && sgnQ(m.payload)[psReq(args).ParticipantId].Status == internal.SigningPartialSignsConfirmed
+//@   ensures[C06.once,C10.once] err == nil ==> isPsReq(args) && (psReq(args).ParticipantId in old(dom(sgnQ(m.payload)))) && old(sgnQ(m.payload)[psReq(args).ParticipantId].Status) == internal.SigningAwaitPartialSigns && sgnQ(m.payload)[psReq(args).ParticipantId].Status == internal.SigningPartialSignsConfirmed
 //@   ensures[C06.batch] err == nil ==> psReq(args).BatchID == old(sp(m).BatchID)
 //@   ensures[C06.valid] err == nil ==> len(psReq(args).PartialSigns) > 0 && psReq(args).ParticipantId >= 0
 //@   ensures[C06.frame,C10.frame] err == nil ==> (forall q *internal.SigningProposalParticipant :: !fresh(q) && q != old(sgnQ(m.payload)[psReq(args).ParticipantId]) ==> q.Status == old(q.Status) && q.PartialSigns == old(q.PartialSigns) && q.Error == old(q.Error))
